@@ -171,7 +171,7 @@ def run(ctx):
 
     # ---- R4 codec table + R6 sibling agreement of the per-magic decoders
     r = ctx.rule("R4", "both per-magic decoders handle none/gzip/snappy with the matching decompressor and raise otherwise; "
-                       "they agree on everything except the timestamp", 4, "A")
+                       "they agree on everything except the timestamp", 5, "A")
     sibs = []
     for mag in (0, 1):
         nested = marms[mag][0]
@@ -200,6 +200,15 @@ def run(ctx):
     (f0, r0, c0), (f1, r1, c1) = sibs
     r.check([x for x in r1 if x != "relative_unpack"] == r0 and c0 == c1, "%s#siblings-agree" % dm.qname,
             "the two per-magic decoders differ beyond the timestamp: reads %s vs %s; Message args %s vs %s" % (r0, r1, c0, c1), where(dm, dm.node))
+    gd = ctx.func("codec:gzip_decode")
+    ge = ctx.func("codec:gzip_encode")
+    rd = [c for c in calls_in(gd) if call_name(c) in ("GzipFile", "decompress", "open")]
+    okg = bool(rd) and all((call_name(c) == "GzipFile") or (call_name(c) == "decompress" and (call_recv(c) or "") == "gzip") or
+                           (call_name(c) == "open" and (call_recv(c) or "") == "gzip") for c in rd)
+    r.check(okg and any(call_name(c) == "GzipFile" for c in calls_in(ge)), "codec:gzip_decode#whole-stream",
+            "gzip payloads are not read with gzip.GzipFile / gzip.decompress (which read every member of the stream): %s" % [norm(c, 50) for c in rd],
+            where(gd, gd.node), "a wrapper whose payload is a multi-member gzip stream (legal, written by other clients) decodes to a prefix "
+            "of its inner messages, silently")
     mc = prog.module("kafkacodec").constants.get("ATTRIBUTE_CODEC_MASK")
     r.check(isinstance(mc, ast.Constant) and mc.value == 0x03, "kafkacodec#codec-mask", "codec mask is not 0x03", "afkak/kafkacodec.py:1")
 
@@ -237,6 +246,9 @@ MUTANTS = [
     {"id": "gzip-arm-uses-snappy", "file": "kafkacodec.py",
      "old": "            elif codec == CODEC_GZIP:\n                gz = gzip_decode(value)\n                for inner_offset",
      "new": "            elif codec == CODEC_GZIP:\n                gz = snappy_decode(value)\n                for inner_offset", "expect": "C05.R4"},
+    {"id": "gzip-first-member-only", "file": "codec.py",
+     "old": "    buffer = BytesIO(payload)\n    handle = gzip.GzipFile(fileobj=buffer, mode=\"r\")\n    result = handle.read()\n    handle.close()\n    buffer.close()\n    return result",
+     "new": "    import zlib\n    return zlib.decompress(payload, 16 + zlib.MAX_WBITS)", "expect": "C05.R4", "note": "seeded C05-5 / C02-5"},
     {"id": "v1-relative-offsets", "file": "kafkacodec.py",
      "old": "                for inner_offset, msg in absolute(KafkaCodec._decode_message_set_iter(gz)):", "new": "                for inner_offset, msg in KafkaCodec._decode_message_set_iter(gz):",
      "expect": "C05.R5"},
